@@ -45,7 +45,10 @@ def mk_record(spec):
         ann["references"] = refs
     if spec.get("linear"):
         return SeqRecord(Seq(spec["seq"]), id=spec["id"], name=spec["id"], description="d", features=feats, annotations=ann)
-    return CircularRecord(Seq(spec["seq"]), id=spec["id"], name=spec["id"], description="d", features=feats, annotations=ann)
+    rec = CircularRecord(Seq(spec["seq"]), id=spec["id"], name=spec["id"], description="d", features=feats, annotations=ann)
+    if spec.get("rot"):          # stored with another origin: moved with the library's own operator
+        rec = rec >> spec["rot"]
+    return rec
 
 
 def ref_key(r):
